@@ -196,6 +196,21 @@ func (e C18Engine) applyAtt(r *Run, s *Step, o *Outcome) {
 		r.Probe("a:not-attestable")
 		return
 	}
+	// the designated outcome of a failed handler is "the event marked observed": the attestation record flagged AND
+	// the chain's last observed event nonce standing at this event (otherwise no later event can ever be tallied)
+	attFlagged := func(post Dump) bool {
+		for _, kv := range c18DumpPrefix(post, ch.Name, append([]byte{0x17}, sdk.Uint64ToBigEndian(nonce)...)) {
+			var a cctypes.Attestation
+			if err := w.App.AppCodec().Unmarshal(kv[1], &a); err == nil && a.Observed {
+				return true
+			}
+		}
+		return false
+	}
+	if attFlagged(f.Post) && !f.Observed {
+		cs.violate("attestation-marked-observed", "attestation/"+kind+"/flagged-but-last-observed-nonce-not-advanced", "event %d (%s): the attestation record is marked observed but the last observed event nonce still stands before it", nonce, kind)
+		return
+	}
 	if !f.Observed || !t.Observed {
 		// no quorum on the branch: both runs must agree on that at least
 		r.Probe("a:no-quorum")
